@@ -49,6 +49,7 @@ func (g *gen) baseConfig() {
 	c.SendBuffer = pick(r, 0, 0, 1, 3, 16)
 	c.ServerBuffer = pick(r, 0, 0, 1, 8)
 	c.DialTimeoutMs = pick(r, 10, 50, 50, 1000)
+	c.WithBlock = r.IntN(6) == 0
 	c.BackoffBaseMs = pick(r, 0, 1, 10, 100, 1000)
 	if c.BackoffBaseMs > 0 {
 		c.BackoffMult = pick(r, 1.0, 1.6, 2.0)
